@@ -19,6 +19,7 @@ type ModelMsg struct {
 	Comp     bool
 	FD       map[int][3]int // sindex -> definition triple that carried the field
 	BE       bool
+	Raw      map[int][]byte // sindex -> payload bytes as transmitted
 }
 
 type ufKey struct {
@@ -285,7 +286,7 @@ func interpret(ops []Op) *ModelOut {
 				out.DataOps++
 				continue
 			}
-			mm := ModelMsg{Global: def.Global, Op: i, Fields: map[int]string{}, DontCare: map[int]bool{}, Comp: op.Data.Comp, FD: map[int][3]int{}, BE: def.be()}
+			mm := ModelMsg{Global: def.Global, Op: i, Fields: map[int]string{}, DontCare: map[int]bool{}, Comp: op.Data.Comp, FD: map[int][3]int{}, BE: def.be(), Raw: map[int][]byte{}}
 			if op.Data.Comp {
 				if tsf := prof.Field(def.Global, 253); tsf != nil && tsf.Kind == kindUTC {
 					if compDontCare {
@@ -313,6 +314,7 @@ func interpret(ops []Op) *ModelOut {
 					continue
 				}
 				mm.FD[pf.SIndex] = fd
+				mm.Raw[pf.SIndex] = b
 				v, care := interpField(pf, byte(fd[2]), b, def.be(), tm)
 				if !care {
 					mm.DontCare[pf.SIndex] = true
